@@ -82,6 +82,7 @@ class C11(Prop):
                 "C11_splice_bigwig", "C11_splice_bigbed", "C11_progress", "C11_completion", "C11_await_never_blocks", "C11_buffer_contract", "C11_lanes_splice",
                 "C11_converter_order", "C11_converter_progress", "C11_converter_completion", "C11_converter_await_never_blocks",
                 "C11_refine_step", "C11_refines", "C11_buffers_are_c12", "C11_splice_concrete",
+                "C11_concrete_progress", "C11_concrete_completion", "C11_concrete_await_never_blocks", "C11_concrete_bytes",
                 "C11_lanes_progress", "C11_lanes_completion", "C11_lanes_waits",
                 "C11_seq_lanes_refines", "C11_seq_lanes_progress", "C11_seq_lanes_completion",
                 "C11_zoom_levels_splice", "C11_zoom_assembly", "C11_zoom_assembly_bigwig", "C11_zoom_progress", "C11_zoom_completion"]
